@@ -58,8 +58,8 @@ def batches(ctx):
     ]
 
 
-OPS = ["glyfshift", "compbase", "cffshift", "hmtx", "vmtx", "headflags", "cmap", "name", "os2", "deltable", "opaque", "subset", "scale", "reorder", "instantiate", "cffwidth"]
-SMALL_OPS = ["glyfshift", "compbase", "cffshift", "hmtx", "vmtx", "headflags", "cmap", "name", "os2", "opaque"]
+OPS = ["glyfshift", "compbase", "cffshift", "os2stale", "hmtx", "vmtx", "headflags", "cmap", "name", "os2", "deltable", "opaque", "subset", "scale", "reorder", "instantiate", "cffwidth"]
+SMALL_OPS = ["glyfshift", "compbase", "cffshift", "os2stale", "hmtx", "vmtx", "headflags", "cmap", "name", "os2", "opaque"]
 VERTICAL = ["ttx:" + p for p in ("cffLib/data/TestSparseCFF2VF.ttx", "subset/data/NotdefWidthCID-Regular.ttx", "subset/data/NotoSansCJKjp-Regular.subset.ttx", "subset/data/TestCID-Regular.ttx", "subset/data/harfbuzz_repacker.ttx", "ttLib/tables/data/NotoColorEmoji.subset.index_format_3.ttx", "ttLib/tables/data/_v_h_e_a_recalc_OTF.ttx", "ttLib/tables/data/_v_h_e_a_recalc_TTF.ttx")]
 
 
@@ -393,6 +393,23 @@ def _save_and_judge(res, font, cfg, full, h, scratch, stage):
         probes["derived.checked"] = probes.get("derived.checked", 0) + 1
         if derr:
             _fail(res, "derived-field-wrong:" + derr[0].split(" ")[0], "recomputed from the saved data: %s" % derr[:3] + where, field=derr[0].split(" ")[0])
+    # OS/2 first / last character index: recalculated whenever OS/2 is compiled, from the Unicode cmap
+    # subtables of the saved font (decoded again from the saved file; the min / max / 0xFFFF cap is ours)
+    if not errs and kind in ("sfnt", "woff") and "OS/2" in tabs and "cmap" in tabs and len(tabs["OS/2"]) >= 68 and font.isLoaded("OS/2"):
+        try:
+            back = TTFont(io.BytesIO(out), lazy=True)
+            codes = set()
+            for st in back["cmap"].tables:
+                if st.isUnicode():
+                    codes.update(st.cmap.keys())
+        except Exception:
+            codes = None
+        if codes:
+            want_ci = (min(0xFFFF, min(codes)), min(0xFFFF, max(codes)))
+            got_ci = struct.unpack_from(">HH", tabs["OS/2"], 64)
+            probes["derived.os2_char_range_checked"] = probes.get("derived.os2_char_range_checked", 0) + 1
+            if tuple(got_ci) != want_ci:
+                _fail(res, "derived-field-wrong:OS/2-char-range", "OS/2 usFirstCharIndex/usLastCharIndex %r, the saved cmap gives %r" % (tuple(got_ci), want_ci) + where, field="OS/2-char-range")
     # CFF fonts: the font bounding box (head, and the CFF FontBBox it is taken from) against the union of
     # the glyph bounds of the saved outlines, traced again from the saved file
     if not errs and kind in ("sfnt", "woff") and full and cfg["recalcBBoxes"] and "CFF " in tabs and "head" in tabs and font.isLoaded("CFF "):
